@@ -121,18 +121,20 @@ Qed.
 
 Definition acked_applied_b (h : history) : bool :=
   forallb (fun o => negb (isW o && isOk o) || memZ (oid o) (map fst (agreed_log h))) (hops h).
+Definition reads_bounded_b (h : history) : bool :=
+  forallb (fun r => (0 <=? ores1 r) && (ores1 r <=? Z.of_nat (length (agreed_log h))) &&
+                    (ores2 r =? (if ores1 r =? 0 then 0 else nth_id (agreed_log h) (ores1 r) 1)))
+          (filter (fun o => isR o && isOk o) (hops h)).
 
-Lemma check_code_1 h : check_code h = 1 -> check_lin h (build h) = true /\ acked_applied_b h = true.
+Lemma check_code_1 h :
+  check_code h = 1 -> check_lin h (build h) = true /\ acked_applied_b h = true /\ reads_bounded_b h = true.
 Proof.
-  unfold check_code, acked_applied_b.
-  destruct (forallb (fun o => negb (isW o && isOk o) || memZ (oid o) (map fst (agreed_log h))) (hops h)) eqn:E5.
-  - repeat match goal with
-           | |- context [if negb ?c then _ else _] => destruct c; cbn [negb]; try discriminate
-           end.
-    intros _. split; reflexivity.
-  - repeat match goal with
-           | |- context [if negb ?c then _ else _] => destruct c; cbn [negb]; try discriminate
-           end.
+  unfold check_code, acked_applied_b, reads_bounded_b.
+  repeat match goal with
+         | |- context [if negb ?c then _ else _] =>
+             let E := fresh "E" in destruct c eqn:E; cbn [negb]; try discriminate
+         end.
+  intros _. repeat split; reflexivity.
 Qed.
 
 Lemma longest_in l : forall acc, longest acc l = acc \/ In (longest acc l) l.
@@ -145,8 +147,14 @@ Qed.
 
 Lemma check_history_sound_lemma h : check_history h = true -> replicated_linearizable h.
 Proof.
-  unfold check_history. intros H. apply Z.eqb_eq in H. apply check_code_1 in H. destruct H as [H H5].
+  unfold check_history. intros H. apply Z.eqb_eq in H. apply check_code_1 in H. destruct H as [H [H5 H10]].
   apply check_lin_sound in H. destruct H as [A B]. exists (build h). split; [exact A|]. split; [exact B|].
+  split.
+  2:{ intros o Ho Hk Hok. unfold reads_bounded_b in H10. rewrite forallb_forall in H10.
+      assert (In o (filter (fun o => isR o && isOk o) (hops h))) as Hin.
+      { apply filter_In. split; [exact Ho|]. unfold isR, isOk. rewrite Hk, Hok. reflexivity. }
+      specialize (H10 o Hin). rewrite !andb_true_iff in H10. destruct H10 as [[_ H10] _].
+      apply Z.leb_le in H10. exact H10. }
   intros o Ho Hk Hok. unfold acked_applied_b in H5. rewrite forallb_forall in H5. specialize (H5 o Ho).
   apply orb_true_iff in H5. destruct H5 as [H5|H5].
   - apply negb_true_iff in H5. unfold isW, isOk in H5. rewrite Hk, Hok in H5. discriminate.
